@@ -5,6 +5,7 @@ import (
 	"fmt"
 	"math"
 	"sort"
+	"verif/lib/refgeom"
 
 	"github.com/paulmach/orb"
 	"github.com/paulmach/orb/maptile"
@@ -528,8 +529,21 @@ func main() {
 			c.Failf("multi-members", "MultiPolygon cover (%d tiles, err %v) is not the union of the member covers (%d tiles) | region=%s zoom=%d members=%v", len(got), err, len(want), rg.name, z, mp)
 			return
 		}
-		for gi, g := range []orb.Geometry{mp, col, col2, orb.Collection{mp}} {
+		// nested collections with several members in front of further members (each member appears where it can only be
+		// reached after the nested ones have been expanded)
+		nestA := orb.Collection{orb.Collection{col[0], col[0]}}
+		nestB := orb.Collection{col[len(col)-1], orb.Collection{col[0], orb.Collection{col[0], col[0]}}}
+		for _, m := range col[1:] {
+			nestA = append(nestA, m)
+			nestB = append(nestB, m)
+		}
+		for gi, g := range []orb.Geometry{mp, col, col2, orb.Collection{mp}, nestA, nestB} {
+			before := refgeom.Bits(g)
 			got, err := tilecover.Geometry(g, z)
+			if refgeom.Bits(g) != before {
+				c.Failf("multi-members", "Geometry of form %d modified its argument: %v | region=%s zoom=%d", gi, g, rg.name, z)
+				return
+			}
 			if err != nil || !same(got) {
 				c.Failf("multi-members", "Geometry cover of form %d (%d tiles, err %v) is not the union of the member covers (%d tiles) | region=%s zoom=%d members=%v", gi, len(got), err, len(want), rg.name, z, mp)
 				return
@@ -772,7 +786,7 @@ func main() {
 			if fmt.Sprint(res) != fmt.Sprint(ref) {
 				c.Failf("merge-order", "result depends on map iteration order: sorted order gives %v | %s", ref, desc)
 			}
-			var area uint64 // in tiles of the cover zoom Z (exact)
+			var area uint64     // in tiles of the cover zoom Z (exact)
 			enumerate := Z <= 4 // deep covers: containment and exact area instead of enumerating the covered tiles
 			cover := map[maptile.Tile]bool{}
 			merged := false
